@@ -132,9 +132,12 @@ func fmtPairs(a []kv) string {
 // sweepReads: C01 - the working tree and every retained version against the versioned map.
 func (e *Executor) sweepReads(i int, op string) *Violation {
 	if v := e.checkReads(i, op, "working", e.tree, e.work); v != nil {
-		return v
+		if !e.workTainted {
+			return v
+		}
+		e.known("F-C16-1", v)
 	}
-	if (e.work == nil) != e.tree.IsEmpty() {
+	if (e.work == nil) != e.tree.IsEmpty() && !e.workTainted {
 		return viol("reads", i, op, "IsEmpty", e.work == nil, e.tree.IsEmpty())
 	}
 	p := e.Cfg.Pal
@@ -148,7 +151,14 @@ func (e *Executor) sweepReads(i int, op string) *Violation {
 			return viol("reads", i, op, fmt.Sprintf("GetImmutable(%d).Version()", ver), ver, it.Version())
 		}
 		if v := e.checkReads(i, op, fmt.Sprintf("version %d", ver), it, t); v != nil {
+			if e.legacyCollision(ver) {
+				e.known("F-C16-1", v)
+				continue
+			}
 			return v
+		}
+		if e.legacyCollision(ver) {
+			continue
 		}
 		for pos := 0; pos < p.NPos(); pos++ {
 			key := p.Pos(pos)
@@ -177,7 +187,11 @@ func (e *Executor) sweepReads(i int, op string) *Violation {
 func (e *Executor) sweepHash(i int, op string) *Violation {
 	want := e.h.Hash(e.work, e.tgt)
 	if got := e.tree.WorkingHash(); !bytes.Equal(got, want) {
-		return viol("hash", i, op, "WorkingHash()", hx(want), hx(got))
+		v := viol("hash", i, op, "WorkingHash()", hx(want), hx(got))
+		if !e.workTainted {
+			return v
+		}
+		e.known("F-C16-1", v)
 	}
 	var last *model.Tree
 	if e.ver != 0 {
@@ -187,7 +201,11 @@ func (e *Executor) sweepHash(i int, op string) *Violation {
 	if e.ver == 0 || last != nil || e.saved[e.ver] == nil {
 		want = e.h.Hash(last, e.ver+1)
 		if got := e.tree.Hash(); !bytes.Equal(got, want) {
-			return viol("hash", i, op, "Hash() of the last saved version", hx(want), hx(got))
+			v := viol("hash", i, op, "Hash() of the last saved version", hx(want), hx(got))
+			if !e.workTainted {
+				return v
+			}
+			e.known("F-C16-1", v)
 		}
 	}
 	e.obs(2)
@@ -198,7 +216,12 @@ func (e *Executor) sweepHash(i int, op string) *Violation {
 		}
 		want := e.h.Hash(e.saved[ver], ver+1)
 		if got := it.Hash(); !bytes.Equal(got, want) {
-			return viol("hash", i, op, fmt.Sprintf("GetImmutable(%d).Hash()", ver), hx(want), hx(got))
+			v := viol("hash", i, op, fmt.Sprintf("GetImmutable(%d).Hash()", ver), hx(want), hx(got))
+			if e.legacyCollision(ver) {
+				e.known("F-C16-1", v)
+				continue
+			}
+			return v
 		}
 		e.obs(1)
 	}
@@ -326,7 +349,7 @@ func (e *Executor) sweepVersions(i int, op string) *Violation {
 // sweepProofs: C03.
 func (e *Executor) sweepProofs(i int, op string) *Violation {
 	// the working tree (root = working hash) and every retained version
-	if e.work != nil {
+	if e.work != nil && !e.workTainted {
 		root := e.h.Hash(e.work, e.tgt)
 		if v := e.checkProofs(i, op, "working", e.tree.ImmutableTree, e.work, root, 0); v != nil {
 			return v
@@ -343,6 +366,10 @@ func (e *Executor) sweepProofs(i int, op string) *Violation {
 		}
 		root := e.h.Hash(t, ver+1)
 		if v := e.checkProofs(i, op, fmt.Sprintf("version %d", ver), it, t, root, ver); v != nil {
+			if e.legacyCollision(ver) {
+				e.known("F-C16-1", v)
+				continue
+			}
 			return v
 		}
 	}
